@@ -23,6 +23,8 @@ pub struct Env {
     pub tls_h1: Arc<ClientConfig>,
     pub tls_bad_alpn: Arc<ClientConfig>,
     pub tls_h2: Arc<ClientConfig>,
+    pub ctl: Arc<super::backend::BackendCtl>,
+    pub probe: Arc<sozu_lib::verif::Probe>,
     /// upper bound (ms) after which an idle / stuck session must have been reclaimed
     pub reclaim_bound_ms: u64,
 }
@@ -122,6 +124,7 @@ pub enum Class {
     H1CompleteCl,
     H1CompleteChunked,
     H1KeepAlive,
+    H1BackendIdleClose,
     H1AbortAfterConnect,
     H1AbortMidHead,
     H1AbortMidBody,
@@ -162,6 +165,7 @@ pub const ALL_CLASSES: &[Class] = &[
     Class::H1CompleteCl,
     Class::H1CompleteChunked,
     Class::H1KeepAlive,
+    Class::H1BackendIdleClose,
     Class::H1AbortAfterConnect,
     Class::H1AbortMidHead,
     Class::H1AbortMidBody,
@@ -204,6 +208,7 @@ impl Class {
             Class::H1CompleteCl => "h1_complete_cl",
             Class::H1CompleteChunked => "h1_complete_chunked",
             Class::H1KeepAlive => "h1_keepalive",
+            Class::H1BackendIdleClose => "h1_backend_closes_idle_keepalive",
             Class::H1AbortAfterConnect => "h1_client_abort_after_connect",
             Class::H1AbortMidHead => "h1_client_abort_mid_head",
             Class::H1AbortMidBody => "h1_client_abort_mid_body",
@@ -491,6 +496,55 @@ pub fn run_session(env: &Env, class: Class, tls_on: bool, rng: &mut Rng) -> Sess
                     break;
                 }
             }
+            c.abort(rst);
+            out(tag)
+        }
+        Class::H1BackendIdleClose => {
+            // the request completes, the client keeps its connection, the backend closes (FIN/RST)
+            // its idle kept-alive connection, and only then the client goes on / leaves
+            let mut c = conn!(0);
+            let id = rng.next_u64() >> 1;
+            let mut p = new_parser();
+            let target = format!("/idle_close?id={id}&ms={}&rst={}&len={}", rng.range(2, 40), rng.below(2), rng.urange(0, 3000));
+            if c.write_paced(&request("GET", &target, "a.test", "", None), 0, 0).is_err() {
+                return out("write_failed");
+            }
+            let r = read_response(&mut c, &mut p, deadline);
+            if !(r.status == Some(200) && r.complete) {
+                let t = r.tag();
+                c.abort(rst);
+                return out(t);
+            }
+            // wait (logical condition) until the backend has closed its side ...
+            let mut closed = false;
+            while Instant::now() < deadline {
+                if env.ctl.idle_closed.lock().unwrap().remove(&id) {
+                    closed = true;
+                    break;
+                }
+                ms(1);
+            }
+            if !closed {
+                c.abort(rst);
+                return out("backend_idle_close_not_seen");
+            }
+            // ... and sozu's event loop has run on it
+            let it = env.probe.snapshot().iteration;
+            let until = Instant::now() + Duration::from_millis(400);
+            while env.probe.snapshot().iteration < it + 2 && Instant::now() < until {
+                ms(1);
+            }
+            ms(rng.below(8));
+            let tag = match rng.below(3) {
+                0 => "backend_idle_closed_then_client_left",
+                _ => {
+                    // the connection is used again: a new backend connection is needed
+                    let host = if rng.bool() { "a.test" } else { "b.test" };
+                    let _ = c.write_paced(&request("GET", "/ok?len=7", host, "", None), 0, 0);
+                    let r2 = read_response(&mut c, &mut p, deadline);
+                    if r2.status == Some(200) && r2.complete { "backend_idle_closed_then_reused" } else { "backend_idle_closed_then_reuse_failed" }
+                }
+            };
             c.abort(rst);
             out(tag)
         }
